@@ -80,7 +80,8 @@ CHECKS = {
         'text': 'Same enumeration as C05 with the power-loss image: every regular non-SQLite file keeps only the bytes present at '
                 'its last fsync (pre-existing content counts as synced, never-synced files are empty), names and committed '
                 'index transactions survive. TLC evaluates DurableVisible / NoTornObject / ReadsSafe on every image; the recorded '
-                'write/truncate/fsync/bind/unbind/commit events are also replayed through the inode machine DurTrace. Design '
+                'write/truncate/fsync/bind/unbind/commit events are also replayed through the inode machine DurTrace, for the '
+                'fault-free run and for each run in which one fsync of a regular file fails. Design '
                 'level: Dos and DosMaint with PowerLoss after any step (TLC; deviations SkipPackFsync, RenameBeforeFsync, '
                 'CommitBeforeFsync, ImportFsyncOnlyLast must fail).',
         'design_ref': 'DESIGN.md section 6 C06',
@@ -194,7 +195,8 @@ CHECKS = {
         'text': 'For each scenario every I/O-relevant call (open, raw write, truncate, fsync, rename/replace/link/unlink/mkdir, '
                 'SQL statement, COMMIT) fails once; outcome, raw projection, fresh-handle reads and the rerun through a new '
                 'handle are recorded; TLC evaluates CompletesOrRaises / StoreIntact / ReadsSafe / RerunOK on every fault point '
-                '(EIO / OperationalError, and PermissionError on loose-file calls). Design level: Dos with Fault and DosMaint '
+                '(EIO / OperationalError, and PermissionError on loose-file calls and on pack writes while packing). Design level: '
+                'Dos with Fault and DosMaint '
                 'with Stop after any instruction (TLC).',
         'design_ref': 'DESIGN.md section 6 C17',
         'note': 'faults are injected at the Python call boundary (OSError EIO / OperationalError); single-fault sequences only, '
